@@ -195,6 +195,10 @@ func checkRuntime(t *testing.T, run *vk.Run) {
 						continue
 					}
 					if run.Expired() {
+						// leave the bubble cleanly: the engine's background goroutines
+						// (heartbeat / ping loops) end with the lab
+						lab.Close()
+						synctest.Wait()
 						return
 					}
 					// canonical run: no gate
